@@ -120,6 +120,28 @@ def call(what: str, fn: Callable, *a: Any, **k: Any) -> Any:
         raise unexpected(e, what) from e
 
 
+def call_with_timeout(what: str, seconds: int, fn: Callable, *a: Any, **k: Any) -> Any:
+    """Like fn(*a, **k), but a call that does not return within `seconds` is a violation (non-termination).
+    Exceptions of fn propagate unchanged."""
+    import signal
+
+    class _Timeout(BaseException):
+        pass
+
+    def handler(signum, frame):  # noqa: ANN001, ARG001
+        raise _Timeout()
+    old = signal.signal(signal.SIGALRM, handler)
+    signal.alarm(seconds)
+    try:
+        return fn(*a, **k)
+    except _Timeout:
+        raise Violation(f"{what}: did not return within {seconds} s (non-termination)",
+                        key="hang:" + what.split(" ")[0]) from None
+    finally:
+        signal.alarm(0)
+        signal.signal(signal.SIGALRM, old)
+
+
 def expect_raises(what: str, excs: tuple, fn: Callable, *a: Any, **k: Any) -> BaseException:
     """The call must raise one of excs; returning or raising something else
     is a violation."""
